@@ -60,6 +60,7 @@ type Pair struct {
 	Case   [2][]string
 	Obs    [2][]string
 	net    []flight
+	dnet   []flight // application datagrams in flight (the model's d_net), separate from the STUN ones
 	EverConnected [2]bool
 	EverSelected  [2]bool
 	Restarted     bool
@@ -79,6 +80,8 @@ type Pair struct {
 	// (duplicate: a copy is appended).  In-flight datagrams are kept in the same order as the model's list.
 	sysOps     [][]string
 	sysLens    []int
+	sysDLens   []int
+	SysDNet    int
 	sysClosed  map[int]bool
 	curSys     int
 	sysFrozen  bool
@@ -103,6 +106,7 @@ func (p *Pair) sys(t ...string) int {
 	}
 	p.sysOps = append(p.sysOps, t)
 	p.sysLens = append(p.sysLens, len(p.net))
+	p.sysDLens = append(p.sysDLens, len(p.dnet))
 	return len(p.sysOps) - 1
 }
 
@@ -110,6 +114,7 @@ func (p *Pair) sys(t ...string) int {
 func (p *Pair) sysDone(k int) {
 	if k >= 0 && k < len(p.sysLens) && !p.sysFrozen && !p.sysClosed[k] {
 		p.sysLens[k] = len(p.net)
+		p.sysDLens[k] = len(p.dnet)
 		if p.sysClosed == nil {
 			p.sysClosed = map[int]bool{}
 		}
@@ -126,7 +131,7 @@ func (p *Pair) SysToks() []string {
 			t = append(t, ";")
 		}
 		t = append(t, o...)
-		t = append(t, "#", fmt.Sprint(p.sysLens[k]))
+		t = append(t, "#", fmt.Sprint(p.sysLens[k]), fmt.Sprint(p.sysDLens[k]))
 	}
 	return t
 }
@@ -148,6 +153,7 @@ func (p *Pair) FreezeSys() {
 		p.SysTopo = p.Topo.Toks()
 		p.SysFinal[0], p.SysFinal[1] = p.lastSnap(0), p.lastSnap(1)
 		p.SysNet = len(p.net)
+		p.SysDNet = len(p.dnet)
 		p.sysFrozen = true
 	}
 }
@@ -222,7 +228,11 @@ func (p *Pair) collect(side int) {
 			continue
 		}
 		if !isStun(w.raw) {
-			p.Stats["data_not_routed"]++
+			// an application datagram: routed like a STUN one, kept in its own in-flight list
+			p.nextFlight++
+			p.dnet = append(p.dnet, flight{to: other, lh: p.eps(other)[toEP].H, src: p.eps(side)[fromEP].Public,
+				raw: w.raw, fromEP: fromEP, toEP: toEP, id: p.nextFlight})
+			p.Stats["data_routed"]++
 			continue
 		}
 		victim := false
@@ -256,6 +266,41 @@ func (p *Pair) collect(side int) {
 	for _, id := range victims {
 		p.drop(p.indexOf(id))
 	}
+}
+
+// DataInFlight is the number of application datagrams in flight.
+func (p *Pair) DataInFlight() int { return len(p.dnet) }
+
+// DropData loses application datagram i; DeliverData hands it to its destination agent (keep: a copy stays in flight,
+// appended at the end as in the model's DDup).
+func (p *Pair) DropData(i int) {
+	p.dnet = append(p.dnet[:i], p.dnet[i+1:]...)
+	p.sys("XR", fmt.Sprint(i))
+}
+
+func (p *Pair) DeliverData(i int, keep bool) {
+	f := p.dnet[i]
+	if keep {
+		p.nextFlight++
+		c := f
+		c.id = p.nextFlight
+		p.dnet = append(p.dnet, c)
+		p.sys("XU", fmt.Sprint(i))
+	}
+	p.dnet = append(p.dnet[:i], p.dnet[i+1:]...)
+	k := p.sys("XV", fmt.Sprint(i))
+	p.curSys = k
+	defer func() { p.sysDone(k) }()
+	s := p.S[f.to]
+	if _, live := s.locals[f.lh]; !live {
+		p.Stats["data_delivered_to_dead_socket"]++
+		return
+	}
+	pl, ok := p.S[1-f.to].payloads[string(f.raw)]
+	if !ok {
+		return
+	}
+	p.do(f.to, Op{Kind: "ID", LH: f.lh, Src: f.src, Payload: pl})
 }
 
 func (p *Pair) indexOf(id int) int {
@@ -565,6 +610,7 @@ func (p *Pair) RestartBoth(credA, credB int) {
 	p.FreezeSys() // new sockets get new handles: outside the fixed topology of the system model
 	p.Restarted = true
 	p.net = nil
+	p.dnet = nil
 	p.do(0, Op{Kind: "RS", A: credA, B: credA})
 	p.do(1, Op{Kind: "RS", A: credB, B: credB})
 	// new sockets: new handles
